@@ -1101,7 +1101,7 @@ func classifyA(c CaseA) core.Class {
 func TestC19a(t *testing.T) {
 	core.Run(t, core.Spec[CaseA]{
 		Property: "C19", Sub: "a",
-		Rule: "generated hcldec spec / gohcl struct type (attributes: string number bool list set map object tuple any; blocks: single list set tuple with 0-8 labels (BlockLabelSpec / label fields), map and object-map with 1-8 LabelNames, attrs; labels and map keys drawn from representation classes (starting with // # /*, equal to //, with quotes, backslashes, newlines, tabs, ${ %{, dots, brackets, spaces, separators, empty, long, non-ASCII, JSON words, schema names, numeric, case variants); up to 4 sibling blocks that often share a label prefix (typically all but the last label); nesting<=3) + conforming or single-fault instance, rendered as plain native text (reference) and 2-5 forms composing: JSON syntax (own emitter from json/spec.md), shuffled items, comments/odd whitespace/CRLF, hclwrite.Format, split into 2-9 files merged with hcl.MergeFiles or with nested / incremental hcl.MergeBodies (left- and right-nested, merge of merges, base grown one body at a time; attributes in exactly one file, per-type block order kept; some bodies decoded twice), layered configurations (one base of 1-9 files and 2-3 independent overlays merged onto the same base body, all merged bodies built before any is decoded, or decoded right after building as control, each compared with its own single-file text), runs of blocks folded into dynamic blocks (tuple/object/variable for_each, labels, custom iterator, nested, inherited iterator) expanded with dynblock.Expand. Oracle: every form agrees with the reference on has-errors and on the decoded value for hcldec.Decode and gohcl.DecodeBody, and the reference of a conforming instance decodes to the instance. Non-trivial: >=1 repeated or labelled block and a form composing >=2 rewrites; distinct = (valid/faulty, nesting>=2, widest rewrite combination of the case). DECODER DIMENSION (styles_test.go): every form, the reference included, is additionally read through two-stage consumer styles driven by a generated plan (cfggen.SplitP: for every body of the schema, recursively, which attribute names / block types are asked for first; the rest comes from the remaining body): (pd) hcldec.PartialDecode with the first half of the object spec + hcldec.Decode of the remainder with the second half, at the top level or on the bodies of the blocks 1-2 levels down; (walk) a generic walker that at EVERY block level calls body.PartialContent(subset) and then remain.Content(rest) - or remain.PartialContent(rest) followed by an empty Content call on what is left - and evaluates the attribute expressions of both stages; (just) the same walker reading the remainder of every attribute-only body with remain.JustAttributes (what a gohcl map / hcl.Attributes remain field does), on every form, bodies wrapped in dynblock.Expand included: the remainder must not report the attributes of the first stage again and must see the iterators; (remain) gohcl.DecodeBody into reflect.StructOf types whose second half sits in a struct field tagged yaotl:\",remain\"; (later) the same with an hcl.Body remain field decoded by a second DecodeBody call. Oracle clauses: each style agrees between reference and form on has-errors and on its result; a conforming instance is accepted by every style; where free of errors a style's result equals the complete decode of the same body (joined halves == hcldec.Decode, two-stage walk == one-stage walk, remain structs joined == plain gohcl struct). Class label partial-decode-inside-generated-block-with-iterator-reference-in-remainder: a form whose dynamic rewrite puts an iterator reference (attribute, nested dynamic, static child holding one) of a GENERATED block into the plan's remainder. Dynamic rewrites of half of the forms (cfggen.DynState.FreeRefs) let the free attributes (kind attrs: hcldec.BlockAttrsSpec / gohcl remain map, read with JustAttributes) of generated blocks refer to the iterator like any other attribute (stat dyn:iterator-ref-in-free-attribute); such forms are compared after all the others under the step signature iterator-ref-in-free-attribute-of-generated-block, and the just style last (signatures style|partial-content-then-just-attributes|<kind>|plain-body or through-dynblock-expand). SCALE DIMENSION (cfggen/scale.go): about one case in 68 (a draw of the middle value 20 from 0..39; rapid draws the middle of a range less often than its ends) has ONE count of the configuration inflated to a threshold-adjacent value N from the pool {63,64,65, 127,128,129, 255,256,257, 511,512,513, 999,1000,1001, 1023,1024,1025, 2047,2048,2049, 4095,4096,4097, 8191,8192,8193} (drawn in the order 1000, 1024, 64, 128, 256, 512, then the neighbours, the large ones last, because rapid favours the head of a list; the pool is cut per dimension at what one case can afford, quick / thorough tier: repeated blocks of one type in one body 2049 / 4097 with N x (items of one bulk block) <= 5000 / 6500; declared attributes of one body and fields of one object type 1025 / 2049; free attributes of one block 2049 / 4097; elements of one list / set / map / untyped value 1025 / 2049 (go-cty's tuple-to-list unification is quadratic in the element count); labels of one block 1025 / 2049; files one configuration is split over 1025 / 2049; nesting depth of blocks 129 / 257 (type equality of nested object types makes every decode quadratic in the depth; at most one level of the chain is a set of blocks, go-cty re-hashes nested sets on every walk); nesting depth of one untyped value 1025 / 2049 and of a typed list(list(...)) value 129 / 257; elements of one for_each collection 1025 / 2049; dynamic blocks of one body: 513 / 1025 x RunCap blocks; one string of N x unit bytes, unit <= 16 / 64). Dimensions: blocks; collections (N collection-valued attributes: one in each of N blocks, or N attributes of one body); attrs; free-attrs; elems; object-fields; labels; files (with 63-257 bulk blocks to distribute); block-depth; value-depth; for_each-elems (the bulk folded under as few dynamic blocks as possible, in the first two forms); dynamic-blocks (DynState.RunCap: every dynamic block stands for at most 1-3 blocks); string-bytes (attribute value, map key or label). The bulk is built the cheap way: 1-3 generated templates (block bodies from GenInstance / sameShape, values from GenVal, types from the ordinary type generators) repeated N times with one string / number value varying with the index and labels / keys made distinct where the kind requires it (block maps); it goes into an EXISTING block type / attribute of the generated schema (2 of 3) or a new one, in the root body or a present nested body; what the ordinary generator produced stays BEFORE and AFTER the bulk (insert position drawn), one ordinary block sits in the MIDDLE of it, and MinItems / MaxItems of the bulk type are sometimes exactly the count (so that the single fault too-few / too-many-blocks lands on the threshold). Everything else then works on the large configuration: single-fault injection (any site, also in the middle of the bulk), 2-3 forms of which the first is always ONE JSON file (so both syntaxes see every large configuration) and the second carries the dimension's rewrite (split over N files; dynamic blocks), shuffle / layout noise (Native.Sparse / JSON.Sparse: drawn at every k-th site, so a bounded number of draws is spread over the whole text) / CRLF / hclwrite.Format / merge shapes / Expand / decode-twice as drawn, the two-stage plan with every consumer style, and layered configurations (values 8-9 of 0..9; overlays share the case's instance; base of N files in the files dimension). The oracle is unchanged and holds at scale. Labels: 'scale:dim:<dimension>' and, MEASURED on the case (instance, render trees, files), 'scale:<what>:<bucket>' for what in blocks attrs collections elems labels block-depth value-depth string-bytes files doc-KiB dynamic-blocks for_each-elems, buckets 64-129 (63..254), 255-513 (255..998), 999-1025 (999..2046), 2047-4097 (2047..8190), 8191+; 'scale+step:<rewrite>' and 'scale+instance:valid|faulty' say what the large configurations went through. Scale cases are rare, so their histogram is also kept per shard in the evidence (extra: scale_classes_shard_seed_<seed>).",
+		Rule: "generated hcldec spec / gohcl struct type (attributes: string number bool list set map object tuple any; blocks: single list set tuple with 0-8 labels (BlockLabelSpec / label fields), map and object-map with 1-8 LabelNames, attrs; labels and map keys drawn from representation classes (starting with // # /*, equal to //, with quotes, backslashes, newlines, tabs, ${ %{, dots, brackets, spaces, separators, empty, long, non-ASCII, JSON words, schema names, numeric, case variants); up to 4 sibling blocks that often share a label prefix (typically all but the last label); nesting<=3) + conforming or single-fault instance, rendered as plain native text (reference) and 2-5 forms composing: JSON syntax (own emitter from json/spec.md), shuffled items, comments/odd whitespace/CRLF, hclwrite.Format, split into 2-9 files merged with hcl.MergeFiles or with nested / incremental hcl.MergeBodies (left- and right-nested, merge of merges, base grown one body at a time; attributes in exactly one file, per-type block order kept; some bodies decoded twice), layered configurations (one base of 1-9 files and 2-3 independent overlays merged onto the same base body, all merged bodies built before any is decoded, or decoded right after building as control, each compared with its own single-file text), runs of blocks folded into dynamic blocks (tuple/object/variable for_each, labels, custom iterator, nested, inherited iterator) expanded with dynblock.Expand. Oracle: every form agrees with the reference on has-errors and on the decoded value for hcldec.Decode and gohcl.DecodeBody, and the reference of a conforming instance decodes to the instance. Non-trivial: >=1 repeated or labelled block and a form composing >=2 rewrites; distinct = (valid/faulty, nesting>=2, widest rewrite combination of the case). DECODER DIMENSION (styles_test.go): every form, the reference included, is additionally read through two-stage consumer styles driven by a generated plan (cfggen.SplitP: for every body of the schema, recursively, which attribute names / block types are asked for first; the rest comes from the remaining body): (pd) hcldec.PartialDecode with the first half of the object spec + hcldec.Decode of the remainder with the second half, at the top level or on the bodies of the blocks 1-2 levels down; (walk) a generic walker that at EVERY block level calls body.PartialContent(subset) and then remain.Content(rest) - or remain.PartialContent(rest) followed by an empty Content call on what is left - and evaluates the attribute expressions of both stages; (just) the same walker reading the remainder of every attribute-only body with remain.JustAttributes (what a gohcl map / hcl.Attributes remain field does), on every form, bodies wrapped in dynblock.Expand included: the remainder must not report the attributes of the first stage again and must see the iterators; (remain) gohcl.DecodeBody into reflect.StructOf types whose second half sits in a struct field tagged yaotl:\",remain\"; (later) the same with an hcl.Body remain field decoded by a second DecodeBody call. Oracle clauses: each style agrees between reference and form on has-errors and on its result; a conforming instance is accepted by every style; where free of errors a style's result equals the complete decode of the same body (joined halves == hcldec.Decode, two-stage walk == one-stage walk, remain structs joined == plain gohcl struct). Class label partial-decode-inside-generated-block-with-iterator-reference-in-remainder: a form whose dynamic rewrite puts an iterator reference (attribute, nested dynamic, static child holding one) of a GENERATED block into the plan's remainder. Dynamic rewrites of half of the forms (cfggen.DynState.FreeRefs) let the free attributes (kind attrs: hcldec.BlockAttrsSpec / gohcl remain map, read with JustAttributes) of generated blocks refer to the iterator like any other attribute (stat dyn:iterator-ref-in-free-attribute); such forms are compared after all the others under the step signature iterator-ref-in-free-attribute-of-generated-block, and the just style last (signatures style|partial-content-then-just-attributes|<kind>|plain-body or through-dynblock-expand). SCALE DIMENSION (cfggen/scale.go): about one case in 68 (a draw of the middle value 20 from 0..39; rapid draws the middle of a range less often than its ends) has ONE count of the configuration inflated to a threshold-adjacent value N from the pool {63,64,65, 127,128,129, 255,256,257, 511,512,513, 999,1000,1001, 1023,1024,1025, 2047,2048,2049, 4095,4096,4097, 8191,8192,8193} (drawn in the order 1000, 1024, 64, 128, 256, 512, then the neighbours, the large ones last, because rapid favours the head of a list; the pool is cut per dimension at what one case can afford, quick / thorough tier: repeated blocks of one type in one body 2049 / 4097 with N x (items of one bulk block) <= 5000 / 6500; declared attributes of one body and fields of one object type 1025 / 2049; free attributes of one block 2049 / 4097; elements of one list / set / map / untyped value 1025 / 2049 (go-cty's tuple-to-list unification is quadratic in the element count); labels of one block 1025 / 2049; files one configuration is split over 1025 / 2049; nesting depth of blocks 129 / 257 (type equality of nested object types makes every decode quadratic in the depth; at most one level of the chain is a set of blocks, go-cty re-hashes nested sets on every walk); nesting depth of one untyped value 1025 / 2049 and of a typed list(list(...)) value 129 / 257; elements of one for_each collection 1025 / 2049; dynamic blocks of one body: 513 / 1025 x RunCap blocks; one string of N x unit bytes, unit <= 16 / 64). Dimensions: blocks; collections (N collection-valued attributes: one in each of N blocks, or N attributes of one body); attrs; free-attrs; elems; object-fields; labels; files (with 63-257 bulk blocks to distribute); block-depth; value-depth; for_each-elems (the bulk folded under as few dynamic blocks as possible, in the first two forms); dynamic-blocks (DynState.RunCap: every dynamic block stands for at most 1-3 blocks); string-bytes (attribute value, map key or label). The bulk is built the cheap way: 1-3 generated templates (block bodies from GenInstance / sameShape, values from GenVal, types from the ordinary type generators) repeated N times with one string / number value varying with the index and labels / keys made distinct where the kind requires it (block maps); it goes into an EXISTING block type / attribute of the generated schema (2 of 3) or a new one, in the root body or a present nested body; what the ordinary generator produced stays BEFORE and AFTER the bulk (insert position drawn), one ordinary block sits in the MIDDLE of it, and MinItems / MaxItems of the bulk type are sometimes exactly the count (so that the single fault too-few / too-many-blocks lands on the threshold). Everything else then works on the large configuration: single-fault injection (any site, also in the middle of the bulk), 2-3 forms of which the first is always ONE JSON file (so both syntaxes see every large configuration) and the second carries the dimension's rewrite (split over N files; dynamic blocks), shuffle / layout noise (Native.Sparse / JSON.Sparse: drawn at every k-th site, so a bounded number of draws is spread over the whole text) / CRLF / hclwrite.Format / merge shapes / Expand / decode-twice as drawn, the two-stage plan with every consumer style, and layered configurations (values 8-9 of 0..9; overlays share the case's instance; base of N files in the files dimension). The oracle is unchanged and holds at scale. Labels: 'scale:dim:<dimension>' and, MEASURED on the case (instance, render trees, files), 'scale:<what>:<bucket>' for what in blocks attrs collections elems labels block-depth value-depth string-bytes files doc-KiB dynamic-blocks for_each-elems, buckets 64-129 (63..254), 255-513 (255..998), 999-1025 (999..2046), 2047-4097 (2047..8190), 8191+; 'scale+step:<rewrite>' and 'scale+instance:valid|faulty' say what the large configurations went through. Scale cases are rare, so their histogram is also kept per shard in the evidence (extra: scale_classes_shard_seed_<seed>). HEREDOC TEMPLATES (heredoc_test.go): text-level rewrite heredoc-template on native files: a string value that the renderer spelled as a non-flush heredoc (<<EOT, body at column 0) is re-spelled, 3 times in 4 per heredoc (at most 8 per file), as a heredoc template of the same value whose first body line begins DIRECTLY with a template sequence: ${\"prefix\"}rest, ${ \"prefix\" }rest or %{ if true }prefix%{ endif }rest, the prefix being nothing, the whole literal start of the line (up to the first $ or %) or a part of it; a file rewritten this way goes through hclwrite.Format 5 times in 10 (otherwise 3 in 10), and composes with noise / CRLF / shuffle / split / merge / dynamic like any native file. Oracle unchanged: the form decodes to what the reference decodes to (a pure reformatting must not put anything into a template). Labels: step:heredoc-template, heredoc-template:interpolation|directive-of-nothing|-then-text|-of-whole-line, heredoc-template:formatted; the step is part of the violation signature.",
 		Gen:  genA, Check: checkA, Classify: classifyA,
 		Assumptions: []string{
 			"go-cty (conversion, number parsing, set ordering) is the trusted base of the expected values",
